@@ -278,3 +278,19 @@ Example C03_ex_paste :
 Proof.
   eexists. split; [vm_compute; reflexivity|]. cbn. repeat split; try reflexivity; unfold half; cbn; auto with qarith; try discriminate.
 Qed.
+
+(** the enclosing hypothesis is satisfiable: a shifted half-scale map standing in for the oracle *)
+Example C03_ex_boundary_encloses :
+  let back := aff_pt (mkAff (1#2) 0 1 0 (1#2) 1) in
+  let fwd := aff_pt (mkAff 2 0 (-(2)) 0 2 (-(2))) in
+  boundary_encloses back fwd (4, 4)%Z (2, 2)%Z 1%Z None /\
+  exists r, reproject_nonlinear cdef back fwd (fun _ => Ok (1#2, 1#2)) (4, 4)%Z (2, 2)%Z None None = Ok r /\
+            roi_src r = ((0, 3), (0, 3))%Z /\ roi_dst r = ((0, 2), (0, 2))%Z /\ read_shrink r = 1%Z.
+Proof.
+  split.
+  - unfold boundary_encloses. intros dy dx p Hdy Hdx Hb _ _ _ _.
+    assert (Cy : dy = 0%Z \/ dy = 1%Z) by (cbn in Hdy; lia).
+    assert (Cx : dx = 0%Z \/ dx = 1%Z) by (cbn in Hdx; lia).
+    destruct Cy as [-> | ->]; destruct Cx as [-> | ->]; injection Hb as <-; vm_compute; intuition discriminate.
+  - eexists. split; [vm_compute; reflexivity|]. cbn. auto.
+Qed.
